@@ -2040,10 +2040,11 @@ class Tensor(object):
         if not hasattr(rmax, "__len__"):
             rmax = [rmax] * N
         assert len(rmax) == N
-        if dim == "all":
+        if isinstance(dim, str) and dim == "all":
             dim = range(N)
         if not hasattr(dim, "__len__"):
-            dim = [dim] * N
+            dim = [dim]
+        dim = [int(d) % N for d in dim]  # The modes whose factors are to be truncated; they share the error budget
 
         if self.batch:
             batch_size = self.cores[0].shape[0]
@@ -2094,8 +2095,8 @@ class Tensor(object):
             # Split factor according to error budget
             left, right = tn.truncated_svd(
                 self.Us[mu],
-                eps=eps / np.sqrt(len(dim)),
-                rmax=rmax[mu],
+                eps=eps / np.sqrt(len(dim)) if mu in dim else 0,  # Modes that were not requested are kept exactly
+                rmax=rmax[mu] if mu in dim else None,
                 left_ortho=True,
                 algorithm=algorithm,
                 batch=self.batch,
